@@ -49,7 +49,7 @@ pub fn d(name: &str, kind: &'static str, words: &str) -> Decl {
     Decl { name: name.into(), kind, words: words.split_whitespace().collect::<Vec<_>>().join(" "), faulty: false }
 }
 
-pub const SITES: [(&str, &str, bool); 31] = [
+pub const SITES: [(&str, &str, bool); 40] = [
     // (label, template with one hole, hole is an assignment target)
     ("assign-rhs", "y := {} ;", false),
     ("assign-lhs", "{} := 1 ;", true),
@@ -82,6 +82,16 @@ pub const SITES: [(&str, &str, bool); 31] = [
     ("fb-arg-formal", "inst ( a := {} , b := TRUE , q => y ) ;", false),
     ("fb-arg-positional", "inst ( {} , TRUE ) ;", false),
     ("fb-output-target", "inst ( a := x , q => {} ) ;", true),
+    // the same name deeper inside an access path or an argument
+    ("subscript-below-field", "y := pts [ {} ] . x ;", false),
+    ("subscript-below-field-in-target", "pts [ {} ] . x := 1 ;", false),
+    ("target-subscript", "arr [ {} ] := 1 ;", false),
+    ("subscript-in-subscript", "y := arr [ arr [ {} ] ] ;", false),
+    ("record-of-a-field", "y := {} . x ;", true),
+    ("subscripted-name", "y := {} [ 1 ] ;", true),
+    ("nested-call-arg", "y := Fn ( Fn ( {} ) ) ;", false),
+    ("unary-on-parenthesis", "y := - ( {} + 1 ) ;", false),
+    ("fb-arg-expression", "inst ( a := 1 + {} , b := TRUE ) ;", false),
 ];
 
 /// Generates one world. `site_cost`: cost of choosing a non-default use site.
@@ -145,7 +155,7 @@ pub fn world(ch: &mut Chooser) -> World {
     if arr == 2 {
         w.violated.insert("P0004");
     }
-    let mut types = format!("TYPE Level : {} := Low ; Rng : INT {} ; Pt : STRUCT {} END_STRUCT ; Arr : {} ; Str10 : STRING [ 10 ] := 'abc' ; Str5 : STRING [ 5 ] ;", enum_opts[e], sub_opts[sb], st_opts[st], arr_s);
+    let mut types = format!("TYPE Level : {} := Low ; Rng : INT {} ; Pt : STRUCT {} END_STRUCT ; Arr : {} ; Pts : ARRAY [ 1 .. 3 ] OF Pt ; Str10 : STRING [ 10 ] := 'abc' ; Str5 : STRING [ 5 ] ;", enum_opts[e], sub_opts[sb], st_opts[st], arr_s);
     if alias {
         types += [" LevelAlias : Level ;", " LevelAlias : Level := High ;", " LevelAlias : Level := Nope ;"][alias_k - 1];
     }
@@ -308,7 +318,7 @@ pub fn world(ch: &mut Chooser) -> World {
     };
     let (hopen, hclose) = if host_kind == 0 { ("FUNCTION_BLOCK Host", "END_FUNCTION_BLOCK") } else { ("PROGRAM Host", "END_PROGRAM") };
     let host_words = format!(
-        "{} VAR_INPUT a_in : INT ; END_VAR VAR_OUTPUT q_out : INT ; END_VAR VAR_IN_OUT io_v : INT ; END_VAR VAR {}x : {} ; y : INT ; lv : {}{} ; arr : Arr ; str : STRING ; END_VAR {} {} {} {} {} q_out := y ; {}",
+        "{} VAR_INPUT a_in : INT ; END_VAR VAR_OUTPUT q_out : INT ; END_VAR VAR_IN_OUT io_v : INT ; END_VAR VAR {}x : {} ; y : INT ; lv : {}{} ; arr : Arr ; pts : Pts ; str : STRING ; END_VAR {} {} {} {} {} q_out := y ; {}",
         hopen, inst_decl, xtype, lv_type, lv_init_s, kdecl_s, ext_s, inv_s, pre_s, stmt, hclose
     );
     let mut host = d("Host", if host_kind == 0 { "fb" } else { "program" }, &host_words);
